@@ -336,6 +336,25 @@ func runJobs(jobs []Job, perJob time.Duration) []JobOut {
 	return outs
 }
 
+// runBatches runs independent job batches in parallel child processes (results in batch order).
+func runBatches(batches [][]Job, perJob time.Duration) [][]JobOut {
+	outs := make([][]JobOut, len(batches))
+	sem := make(chan struct{}, 8)
+	done := make(chan int)
+	for i := range batches {
+		go func(i int) {
+			sem <- struct{}{}
+			outs[i] = runJobs(batches[i], perJob)
+			<-sem
+			done <- i
+		}(i)
+	}
+	for range batches {
+		<-done
+	}
+	return outs
+}
+
 /* ---------- the Options matrix ---------- */
 
 func matrix(ctxToo bool) []Cfg {
@@ -456,6 +475,9 @@ func genTraces(w *lib.Writer, r *lib.Rand, tier string) {
 		variants = 12
 	}
 	cfgs := matrix(true)
+	var progs []string
+	var classes []string
+	var batches [][]Job
 	for v := 0; v < variants; v++ {
 		for pi, tmpl := range smallProgs {
 			prog := fillProg(tmpl, r)
@@ -463,10 +485,112 @@ func genTraces(w *lib.Writer, r *lib.Rand, tier string) {
 			for _, c := range cfgs {
 				jobs = append(jobs, Job{Cfg: c, Prog: prog})
 			}
-			outs := runJobs(jobs, 2*time.Second)
-			for k, c := range cfgs {
-				traceCase(w, TraceIn{Kind: "trace", Cfg: c, Prog: prog}, outs[0], outs[k+1], fmt.Sprintf("trace/p%02d", pi))
+			progs = append(progs, prog)
+			classes = append(classes, fmt.Sprintf("trace/p%02d", pi))
+			batches = append(batches, jobs)
+		}
+	}
+	all := runBatches(batches, 2*time.Second)
+	for b, outs := range all {
+		for k, c := range cfgs {
+			traceCase(w, TraceIn{Kind: "trace", Cfg: c, Prog: progs[b]}, outs[0], outs[k+1], classes[b])
+		}
+	}
+}
+
+/* ---------- programs that make a growable registry grow (still far below every limit) ---------- */
+
+// Each program descends through vararg functions with 1..3 named parameters, called with 0..6
+// arguments that grow by one per level, so that the registry top sweeps upwards through many
+// capacity boundaries and the crossing lands on every kind of operation (argument set-up, the
+// SetTop of the vararg frame entry, calls of host functions). Every descent runs in a fresh
+// coroutine (= a fresh registry of RegistrySize cells); the alignment of the top with the growth
+// steps is varied by 0..LIFT fixed-arity frames (4 cells each) below and by the argument count.
+// After the nested call every level checks that its named parameters and varargs are intact.
+// %d: depth, lift levels.
+var growProgs = []string{
+	// plain recursion, 1 / 2 / 3 named parameters
+	`local DEPTH, LIFT = %d %% 6 + 14, %d %% 2 + 4
+	 local function f1(a, ...) if a == 0 then return select('#', ...) end
+	   local n = select('#', ...) local r = f1(a - 1, a, ...) assert(select('#', ...) == n) return r * 3 %% 1000003 + a end
+	 local function f2(a, b, ...) if a == 0 then return select('#', ...) + b end
+	   local n = select('#', ...) local r = f2(a - 1, b + 1, a, ...) assert(select('#', ...) == n) return (r * 3 + b) %% 1000003 + a end
+	 local function f3(a, b, c, ...) if a == 0 then return select('#', ...) + b + #c end
+	   local n, first = select('#', ...), (...) local r = f3(a - 1, b + 1, c .. "x", a, ...)
+	   assert(select('#', ...) == n and (...) == first and #c == DEPTH - a + 1) return (r * 3 + b + #c) %% 1000003 + a end
+	 local function lift(k, g, ...) if k == 0 then return g(...) end local x = lift(k - 1, g, ...) return x end
+	 local args = { 11, 22, 33, 44, 55, 66 }
+	 for k = 0, LIFT do for n = 0, 6 do
+	   local co = coroutine.wrap(function(...) return pcall(lift, k, function(...) return f1(DEPTH, ...) + f2(DEPTH, 10, ...) + f3(DEPTH, 10, "s", ...) end, ...) end)
+	   emit(k, n, co(unpack(args, 1, n)))
+	 end end return 1`,
+	// tail calls into vararg functions, method calls (self is a named parameter), __call
+	`local DEPTH, LIFT = %d %% 6 + 14, %d %% 2 + 4
+	 local obj = { tag = 7 }
+	 function obj:m(a, ...) if a == 0 then return self.tag + select('#', ...) end
+	   local n = select('#', ...) local r = self:m(a - 1, a, ...) assert(select('#', ...) == n and self == obj) return r * 3 %% 1000003 + a end
+	 local callable = setmetatable({ tag = 5 }, { __call = function(self, a, b, ...) if a == 0 then return self.tag + b + select('#', ...) end
+	   local n = select('#', ...) local r = self(a - 1, b + 1, a, ...) assert(select('#', ...) == n and self.tag == 5) return (r * 3 + b) %% 1000003 + a end })
+	 local function tail(a, acc, ...) if a == 0 then return acc + select('#', ...) end return tail(a - 1, acc + a, a, ...) end
+	 local function viatail(a, b, ...) if a == 0 then return b + select('#', ...) end
+	   local n = select('#', ...) local r = viatail(a - 1, b + 1, a, ...) assert(select('#', ...) == n) return tail(3, r + b, ...) end
+	 local function lift(k, g, ...) if k == 0 then return g(...) end local x = lift(k - 1, g, ...) return x end
+	 local args = { 11, 22, 33, 44, 55, 66 }
+	 for k = 0, LIFT do for n = 0, 6 do
+	   local co = coroutine.wrap(function(...) return pcall(lift, k, function(...) return obj:m(DEPTH, ...) + callable(DEPTH, 1, ...) + viatail(DEPTH, 2, ...) + tail(DEPTH * 4, 0, ...) end, ...) end)
+	   emit(k, n, co(unpack(args, 1, n)))
+	 end end return 2`,
+	// the same descents on the main thread (one alignment per state), with live locals before the call
+	`local DEPTH, PAD = %d %% 12 + 18, %d %% 40
+	 local function f3(a, b, c, ...) if a == 0 then return select('#', ...) + b + #c end
+	   local n, first = select('#', ...), (...) local r = f3(a - 1, b + 1, c .. "x", a, ...)
+	   assert(select('#', ...) == n and (...) == first) return (r * 3 + b + #c) %% 1000003 + a end
+	 local function pad(k, ...) if k == 0 then return f3(DEPTH, 10, "s", ...) end local x = pad(k - 1, ...) return x end
+	 emit(pcall(pad, PAD)) emit(pcall(pad, PAD, 1, 2, 3)) emit(pcall(f3, DEPTH + 20, 1, "t", nil, nil)) return 3`,
+}
+
+// configurations for the growing programs: every one leaves room for them (needs stay below ~2000 cells)
+func growMatrix(tier string) []Cfg {
+	var cs []Cfg
+	steps := []int{1, 2, 3, 7, 8, 31, 32, 33, 64}
+	for _, g := range steps {
+		for _, max := range []int{4096, 131072} {
+			if max == 4096 && tier != "thorough" && g != 1 && g != 7 && g != 32 {
+				continue
 			}
+			cs = append(cs, Cfg{CSS: 256, Reg: 128, Max: max, Grow: g, Min: g%2 == 0})
+		}
+	}
+	cs = append(cs, Cfg{CSS: 256, Reg: 200, Max: 3000, Grow: 5, Min: true}, Cfg{CSS: 256, Reg: 129, Max: 2500, Grow: 1, Min: true, Ctx: true},
+		Cfg{CSS: 256, Reg: 5120, Max: 131072, Grow: 1, Min: false}, Cfg{CSS: 256, Reg: 5120, Max: 0, Grow: 32, Min: true}, Cfg{CSS: 256, Reg: 2048, Max: 0, Grow: 0, Min: false})
+	return cs
+}
+
+func genGrowTraces(w *lib.Writer, r *lib.Rand, tier string) {
+	variants := 1
+	if tier == "thorough" {
+		variants = 10
+	}
+	cfgs := growMatrix(tier)
+	var progs []string
+	var classes []string
+	var batches [][]Job
+	for v := 0; v < variants; v++ {
+		for pi, tmpl := range growProgs {
+			prog := fillProg(tmpl, r)
+			jobs := []Job{{Cfg: refCfg, Prog: prog}}
+			for _, c := range cfgs {
+				jobs = append(jobs, Job{Cfg: c, Prog: prog})
+			}
+			progs = append(progs, prog)
+			classes = append(classes, fmt.Sprintf("trace/grow%d", pi))
+			batches = append(batches, jobs)
+		}
+	}
+	all := runBatches(batches, 5*time.Second)
+	for b, outs := range all {
+		for k, c := range cfgs {
+			traceCase(w, TraceIn{Kind: "trace", Cfg: c, Prog: progs[b]}, outs[0], outs[k+1], classes[b])
 		}
 	}
 }
